@@ -937,6 +937,9 @@ func countOfSameBuffer(f *core.Func, base, bound ast.Expr) bool {
 			ok = true
 		case core.BuiltinName(info, c) == "copy" && idx == 0 && len(c.Args) == 2 && core.ExprStr(c.Args[0]) == want:
 			ok = true
+		case strings.HasSuffix(nm, "go-cid.CidFromReader") && idx == 0 && len(c.Args) == 1 && readerOver(info, c.Args[0], want):
+			// the number of bytes a parser consumed from bytes.NewReader(base) cannot exceed len(base)
+			ok = true
 		default:
 			bad = true
 		}
@@ -1123,4 +1126,17 @@ func indexFromSearchHelper(p *core.Prog, f *core.Func, g *core.Graph, n *core.GN
 		}
 	}
 	return false, ""
+}
+
+// readerOver: e is bytes.NewReader(base) / bytes.NewBuffer(base) for the buffer printed as want.
+func readerOver(info *types.Info, e ast.Expr, want string) bool {
+	c, ok := core.Unparen(e).(*ast.CallExpr)
+	if !ok || len(c.Args) != 1 {
+		return false
+	}
+	switch core.CalleeName(info, c) {
+	case "bytes.NewReader", "bytes.NewBuffer":
+		return core.ExprStr(core.Unparen(c.Args[0])) == want
+	}
+	return false
 }
